@@ -414,7 +414,7 @@ func c07Sequences(c *mc.Ctx) {
 		seq = append(seq, j)
 	}
 	cuts := c.Choose(1 << uint(ln-1)) // bit i: a new packfile starts after object i
-	preset := c.Choose(3)              // commits the destination already holds: none / r / r and a
+	preset := c.Choose(3)             // commits the destination already holds: none / r / r and a
 	tablePresent := c.ChooseDev(2) == 0
 	expectLast := c.ChooseDev(2) == 1
 	c.Shard()
